@@ -281,7 +281,7 @@ class Engine:
         r = self.resolve_place(item, frame, st, place)
         if r[0] == "loc":
             self.store_cell(st, r[1], r[2], val)
-            if r[1][1] < 0 or r[1][0] != frame:
+            if isinstance(r[1][1], int) and r[1][1] < 0:
                 trace.append(("write", r[1], r[2], val, site))
         else:
             trace.append(("store_through_value", r[1], val, site))
@@ -1237,7 +1237,8 @@ def subterms(t):
         if not isinstance(x, tuple) or x in seen:
             continue
         seen.add(x)
-        yield x
+        if x and isinstance(x[0], str):
+            yield x
         for y in x:
             if isinstance(y, tuple):
                 stack.append(y)
